@@ -842,6 +842,8 @@ def run(ctx: Ctx) -> Report:
         "history verdicts compare with a fresh Assembler in the same process (module-level caches are already "
         "warm); error messages are compared on their first line",
     ]
+    if COVFUZZ:
+        rep.assumptions.append(CF.ASSUMPTION)
     return rep
 
 
